@@ -250,4 +250,6 @@ def run(ctx):
         ctx.guard("R08.3", "options/" + w, lambda w=w: tr.option_invariance(ctx, "R08.3", w, exempt={"pop_except_from": "selects the character-by-character path; equivalence is R08.1"}))
         ctx.guard("R08.3", "bom/" + w, lambda w=w: tr.bom_rule(ctx, "R08.3", w))
     ctx.guard("R08.3", "builders", lambda: r08_3_builders(ctx))
+    for w in ("html", "xml"):
+        ctx.guard("R08.1", "wrapper-gate/" + w, lambda w=w: tr.wrapper_fast_path_gate(ctx, "R08.1", w))
     ctx.guard("R08.3", "raw-path-gate", lambda: ctx.floor("R08.3", "raw-path-sites", tr.raw_path_gate(ctx, "R08.3", "html"), 1))
